@@ -139,7 +139,12 @@ func Concretise(d Doc, p Pool) []byte {
 				switch it.T {
 				case "o":
 					if it.G == "font" {
-						b.WriteString(`<font color="` + p.Color[it.C] + `">`)
+						if it.C%2 == 0 {
+							// the colour is not the tag's first attribute
+							b.WriteString(`<font face="Arial" color="` + p.Color[it.C] + `">`)
+						} else {
+							b.WriteString(`<font color="` + p.Color[it.C] + `">`)
+						}
 					} else {
 						b.WriteString("<" + it.G + ">")
 					}
